@@ -1,14 +1,191 @@
 package sym
 
-// Confinement mode (C18): ownership tags on objects, checked on every store.
+// Confinement mode (C18). The schedule quantifier of "Decimals can be shared
+// read-only between goroutines" is discharged by a non-interference argument
+// whose premises are decided on every explored path:
+//
+//	P1 write confinement: during an operation every store targets the receiver
+//	   (struct or a buffer it owns), an object allocated during the call, or a
+//	   buffer obtained from the pool during the call - never an operand's
+//	   struct or backing array (including words beyond len) and never a
+//	   package-level variable.
+//	P2 pool discipline: nothing is accessed through a buffer after putDec, no
+//	   buffer is Put twice, and the result does not reference a pool buffer.
+//
+// sync.Pool.Get returns nil, a buffer Put earlier on this path, or a foreign
+// buffer (Put by another goroutine) - the last two with unconstrained contents.
+
+import (
+	"fmt"
+	"go/types"
+
+	"golang.org/x/tools/go/ssa"
+
+	"verif/engine/term"
+)
+
+const (
+	ownerOperand  = 2
+	ownerReceiver = 3
+)
 
 type confineState struct {
-	violations []string
+	active   bool
+	startGen int
+	pool     []Pointer // *dec values held by the pool model
+	nHavoc   int
 }
 
 func (p *Path) enableConfine() {
 	p.confine = &confineState{}
+	p.onStore = func(in ssa.Instruction, o *Object) {
+		cs := p.confine
+		if cs == nil || !cs.active {
+			return
+		}
+		if o.Freed {
+			p.failNow("C18.pool.use-after-put", "store through a buffer that was returned to the pool at "+p.pos(in))
+			return
+		}
+		switch o.Owner {
+		case ownerOperand:
+			p.failNow("C18.confine.operand", fmt.Sprintf("store into operand object %q at %s", o.Name, p.pos(in)))
+		case ownerGlobal:
+			p.failNow("C18.confine.global", fmt.Sprintf("store into package-level variable %q at %s", o.Name, p.pos(in)))
+		}
+	}
+	p.onLoad = func(in ssa.Instruction, o *Object) {
+		cs := p.confine
+		if cs == nil || !cs.active {
+			return
+		}
+		if o.Freed {
+			p.failNow("C18.pool.use-after-put", "load through a buffer that was returned to the pool at "+p.pos(in))
+		}
+	}
 }
 
-func (p *Path) confinePoolGet() Value  { return IfaceV{} }
-func (p *Path) confinePoolPut(v Value) {}
+// tagReachable marks the struct pointed to by ptr and the backing array of its
+// mantissa slice with owner.
+func (p *Path) tagDecimal(v Value, owner int) {
+	ptr, ok := v.(Pointer)
+	if !ok || ptr.IsNil() {
+		return
+	}
+	ptr.Obj.Owner = owner
+	for _, c := range ptr.Obj.Cells {
+		if sl, ok := c.(SliceV); ok && sl.Obj != nil {
+			sl.Obj.Owner = owner
+		}
+	}
+}
+
+func (p *Path) confinePoolGet() Value {
+	cs := p.confine
+	// 0: nil, 1: a buffer put earlier on this path, 2: a foreign buffer
+	choices := []int64{0, 2}
+	if len(cs.pool) > 0 {
+		choices = append(choices, 1)
+	}
+	which := choices[0]
+	if len(choices) > 1 {
+		// fork over the pool's answers (no solver involved: all are possible)
+		cs.nHavoc++
+		v := p.C.Var(fmt.Sprintf("pool.choice%d", cs.nHavoc), p.C.Int(0).C, p.C.Int(int64(len(choices)-1)).C)
+		which = choices[p.concretize(v, "sync.Pool.Get")]
+	}
+	decT := p.X.Pkgs["decimal"].Type("dec").Type()
+	ptrT := types.NewPointer(decT)
+	switch which {
+	case 0:
+		return IfaceV{}
+	case 1:
+		ptr := cs.pool[len(cs.pool)-1]
+		cs.pool = cs.pool[:len(cs.pool)-1]
+		ptr.Obj.Freed = false
+		if sl, ok := ptr.Obj.Cells[ptr.Off].(SliceV); ok && sl.Obj != nil {
+			sl.Obj.Freed = false
+			p.havocCells(sl.Obj)
+		}
+		return IfaceV{T: ptrT, V: ptr}
+	default:
+		capx := int(p.job.Cfg["poolcap"])
+		if capx == 0 {
+			capx = 6
+		}
+		wt := p.X.wordType()
+		buf := p.newObject(wt, capx, "foreign pool buffer")
+		p.havocCells(buf)
+		hdr := p.newObject(decT, 1, "foreign *dec")
+		cs.nHavoc++
+		hdr.Cells[0] = SliceV{Obj: buf, Len: 0, Cap: capx, Elem: wt, ESize: 1}
+		return IfaceV{T: ptrT, V: Pointer{Obj: hdr, T: decT}}
+	}
+}
+
+func (p *Path) havocCells(o *Object) {
+	cs := p.confine
+	for i := range o.Cells {
+		cs.nHavoc++
+		o.Cells[i] = p.C.Var(fmt.Sprintf("pool.stale%d", cs.nHavoc), p.C.Int(0).C, max64)
+	}
+}
+
+func (p *Path) confinePoolPut(v Value) {
+	cs := p.confine
+	iv, ok := v.(IfaceV)
+	if !ok || iv.T == nil {
+		return
+	}
+	ptr, ok := iv.V.(Pointer)
+	if !ok || ptr.IsNil() {
+		return
+	}
+	if ptr.Obj.Freed {
+		p.failNow("C18.pool.double-put", "buffer returned to the pool twice")
+		return
+	}
+	if sl, ok := ptr.Obj.Cells[ptr.Off].(SliceV); ok && sl.Obj != nil {
+		if sl.Obj.Owner == ownerOperand || sl.Obj.Owner == ownerReceiver {
+			p.failNow("C18.pool.put-owned", "a buffer owned by an operand or by the receiver was returned to the pool")
+		}
+		sl.Obj.Freed = true
+	}
+	ptr.Obj.Freed = true
+	cs.pool = append(cs.pool, ptr)
+}
+
+func (x *Exec) registerConfineIntrinsics() {
+	for _, pk := range []string{DecimalPath} {
+		pk := pk
+		x.intr[pk+".vConfineBegin"] = func(p *Path, fn *ssa.Function, a []Value) (Value, *Panic) {
+			if p.confine == nil {
+				return nil, nil
+			}
+			p.tagDecimal(a[0], ownerReceiver)
+			ops := a[1].(SliceV)
+			for i := 0; i < ops.Len; i++ {
+				p.tagDecimal(ops.Obj.Cells[ops.Off+i], ownerOperand)
+			}
+			p.confine.active = true
+			return nil, nil
+		}
+		x.intr[pk+".vConfineEnd"] = func(p *Path, fn *ssa.Function, a []Value) (Value, *Panic) {
+			if p.confine == nil {
+				return nil, nil
+			}
+			p.confine.active = false
+			// the result must not reference a buffer that sits in the pool
+			if ptr, ok := a[0].(Pointer); ok && !ptr.IsNil() {
+				for _, c := range ptr.Obj.Cells {
+					if sl, ok := c.(SliceV); ok && sl.Obj != nil && sl.Obj.Freed {
+						p.failNow("C18.pool.result-in-pool", "the receiver's mantissa is a buffer that was returned to the pool")
+					}
+				}
+			}
+			p.assert("C18.confine.checked", p.C.True, "")
+			return nil, nil
+		}
+	}
+	_ = term.Pow2
+}
